@@ -50,7 +50,8 @@ Definition advance (c : coord) (t : tstate) : tstate :=
   | _ :: rs', Node l => match lookup c l with
                         | Some t' => {| rem := rs'; cur := t' |}
                         | None => {| rem := rs'; cur := default_of rs' |} end
-  | _, _ => t
+  | _ :: rs', Leaf _ => {| rem := rs'; cur := default_of rs' |}     (* ill-shaped: treated as absent *)
+  | [], _ => t
   end.
 Definition kill (t : tstate) : tstate :=
   match rem t with _ :: rs' => {| rem := rs'; cur := default_of rs' |} | [] => t end.
@@ -109,3 +110,46 @@ Fixpoint wf (L : list rank) (tms : list term) : Prop :=
                /\ forall c, wf L' (map (step_term r c) tms)
   end.
 
+
+(* ---------- the static side condition (rank structure only) ---------- *)
+Definition shape := list (list (list rank)).            (* per term, per tensor: remaining ranks *)
+
+Definition heads (r : rank) (rs : list rank) : bool := match rs with r' :: _ => String.eqb r' r | [] => false end.
+Definition step_rems (r : rank) (tm : list (list rank)) : list (list rank) :=
+  map (fun rs => if heads r rs then tl rs else rs) tm.
+
+(* every term has a participant at every level, and at the bottom every tensor is exhausted *)
+Fixpoint swf (L : list rank) (sh : shape) : bool :=
+  match L with
+  | [] => forallb (forallb (fun rs => match rs with [] => true | _ :: _ => false end)) sh
+  | r :: L' => forallb (existsb (heads r)) sh && swf L' (map (step_rems r) sh)
+  end.
+
+(* what an emitted loop nest shows, level by level: the rank and, per term, which tensors (by position in
+   the term) are co-iterated there *)
+Definition level_view := (rank * list (list nat))%type.
+
+Fixpoint positions (n : nat) (bs : list bool) : list nat :=
+  match bs with [] => [] | b :: bs' => (if b then [n] else []) ++ positions (S n) bs' end.
+
+Fixpoint expected_views (L : list rank) (sh : shape) : list level_view :=
+  match L with
+  | [] => []
+  | r :: L' => (r, map (fun tm => positions 0 (map (heads r) tm)) sh) :: expected_views L' (map (step_rems r) sh)
+  end.
+
+Fixpoint nats_eqb (a b : list nat) : bool :=
+  match a, b with [], [] => true | x :: a', y :: b' => Nat.eqb x y && nats_eqb a' b' | _, _ => false end.
+Fixpoint natss_eqb (a b : list (list nat)) : bool :=
+  match a, b with [], [] => true | x :: a', y :: b' => nats_eqb x y && natss_eqb a' b' | _, _ => false end.
+Fixpoint views_eqb (a b : list level_view) : bool :=
+  match a, b with
+  | [], [] => true
+  | (r, x) :: a', (r', y) :: b' => String.eqb r r' && natss_eqb x y && views_eqb a' b'
+  | _, _ => false
+  end.
+
+(* the certified validator of C01: rank structure is well-formed AND the text co-iterates, at every level,
+   exactly the tensors the proven nest semantics `run` co-iterates *)
+Definition nest_okb (L : list rank) (sh : shape) (views : list level_view) : bool :=
+  swf L sh && views_eqb (expected_views L sh) views.
